@@ -4,6 +4,7 @@
 
 mod composer_script;
 mod dispatch;
+mod kernels;
 mod util;
 mod widgets;
 
@@ -19,6 +20,7 @@ fn main() {
     match args[1].as_str() {
         "composer" => composer_script::run(&text),
         "widgets" => widgets::run(&text),
+        "kernels" => kernels::run(&text),
         m => {
             eprintln!("unknown mode {m}");
             std::process::exit(2);
